@@ -96,10 +96,10 @@ void ezc3d::c3d::readFile(unsigned int nByteToRead, char * c, int nByteFromPrevi
 }
 
 unsigned int ezc3d::c3d::hex2uint(const char * val, unsigned int len){
-    int ret(0);
+    unsigned int ret(0);
     for (unsigned int i = 0; i < len; i++)
-        ret |= static_cast<int>(static_cast<unsigned char>(val[i])) * static_cast<int>(pow(0x100, i));
-    return static_cast<unsigned int>(ret);
+        ret |= static_cast<unsigned int>(static_cast<unsigned char>(val[i])) * static_cast<unsigned int>(pow(0x100, i));
+    return ret;
 }
 
 int ezc3d::c3d::hex2int(const char * val, unsigned int len){
